@@ -64,6 +64,8 @@ def standard_run(ck, P, replay_cases=None):
                     ck.known_hits.setdefault(k["id"], k["witness_case"])
                 elif got == k.get("witness_spec"):
                     ck.notes.append(f"finding {k['id']} no longer reproduces (the witness now yields the specified result)")
+                elif k.get("witness_timing_dependent"):
+                    ck.notes.append(f"witness of {k['id']} inconclusive on this run (timing dependent script): {got[:200]}")
                 else:
                     ck.violations.append({"case": k["witness_case"], "impl": got, "model": "-", "spec": k.get("witness_spec", "-"),
                                           "signature": k["id"], "why": "the witness of a recorded finding now behaves in a third way"})
